@@ -114,12 +114,15 @@ def classify(res):
     return out
 
 
-def evaluate(rng, tier, judge, n_quick=150, n_thorough=1500, runs=3, cli_share=0.2):
+def evaluate(rng, tier, judge, n_quick=150, n_thorough=1500, runs=3, cli_share=0.12, main_share=0.35):
     n = n_quick if tier == "quick" else n_thorough
     failures, hist, samples = [], collections.Counter(), []
     seen = set()
     for i in range(n):
-        via = "cli" if rng.random() < cli_share else "api"
+        # via: the command line in a child process | its entry point __main__.main(argv) called in-process (the same
+        # argument handling, recorded) | conformance.ground_truth called directly
+        r_via = rng.random()
+        via = "cli" if r_via < cli_share else "main" if r_via < cli_share + main_share else "api"
         scn = L.gen_scenario(rng, via=via, runs=runs)
         if via == "cli":
             # run through the command line for the judged behaviour, and once more through the API (same scenario,
@@ -178,6 +181,6 @@ def evaluate(rng, tier, judge, n_quick=150, n_thorough=1500, runs=3, cli_share=0
 
 def check_scenario(case, judge):
     scn = case["scenario"]
-    res = L.run_scenario(scn, record=(scn["via"] == "api"))
+    res = L.run_scenario(scn, record=(scn["via"] != "cli"))
     fails = [f for f in judge(res) if case.get("target") in (None, f["target"], "*")]
     return (not fails), "; ".join(f["what"] for f in fails[:3])
